@@ -446,6 +446,7 @@ def run_scenario(sc):
             net.ev("a_final", p=tp.partition, pos=st._position, paused=st._paused)
             final[str(tp.partition)] = {"pos": st._position, "paused": st._paused}
         out["final"] = final
+        CL = None                  # the observation ends with the final snapshot (stop() is C19's business)
         out["quiet_time"] = loop.time() - (deadline - sc.get("drain", 30.0))
         out["fetch_task_done"] = fetcher._fetch_task.done()
         try:
